@@ -3,6 +3,7 @@ import petl as etl
 from hypothesis import strategies as st
 
 from pv import gen, codec
+from pv import catgen
 from pv.core import Sub, Fail, exc_fail
 from pv.order import ref_cmp
 from pv.ref import base as R, joins as RJ
@@ -57,13 +58,15 @@ def join_case(draw, tier):
     if fn not in ("join", "antijoin"):
         c["missing"] = draw(st.sampled_from([None, None, "M"]))
     if fn != "antijoin" and draw(st.integers(0, 3)) == 0:
-        c["lprefix"] = draw(st.sampled_from(["l_", "", 1]))
+        # either prefix alone, or both
+        c["lprefix"] = draw(st.sampled_from(["l_", "", 1, None]))
         c["rprefix"] = draw(st.sampled_from(["r_", None]))
     # the inputs are sorted via temporary-file chunks as well: "first partner" and the row multiset must not depend on it
     c["buffersize"] = draw(st.sampled_from([None, None, 1, 2, 3]))
     # inputs that are themselves sort views on the join key (ascending or descending): the operator must not take them
     # for sorted input unless they are
     c["upstream"] = [draw(st.sampled_from(["none", "none", "none", "asc", "desc"])) for _ in range(2)]
+    c["forms"] = [draw(st.sampled_from(["lists", "lists", "lists"] + catgen.FORMS)) for _ in range(2)]
     # self-join: ONE table object is both inputs, joined on two different fields of it (boss/id style)
     if len(lh) >= 2 and draw(st.integers(0, 5)) == 0:
         c["selfjoin"] = True
@@ -79,8 +82,9 @@ def check_join(case, ctx):
     fn, L, Rt = case["fn"], case["left"], case["right"]
     kind = KINDS[fn]
     kw = {k: case[k] for k in ("key", "lkey", "rkey", "missing", "lprefix", "rprefix") if k in case}
-    if kw.get("rprefix", 0) is None:
-        kw.pop("rprefix")
+    for pk_ in ("lprefix", "rprefix"):
+        if kw.get(pk_, 0) is None:
+            kw.pop(pk_)
     refkw = dict(kw)
     if case.get("buffersize") is not None:
         kw["buffersize"] = case["buffersize"]
@@ -105,7 +109,10 @@ def check_join(case, ctx):
     ctx.nontrivial((lkeys and rkeys and matched and unmatched) or none_vs_empty)
     ctx.label("fn:" + fn, "keyform:" + case["keyform"], "left-empty" if not lkeys else "left-rows",
               "right-empty" if not rkeys else "right-rows", "none-vs-empty" if none_vs_empty else "regular")
-    Ls, Rs = codec.snapshot(case["left"]), codec.snapshot(case["right"])
+    forms = case.get("forms") or ["lists", "lists"]
+    Ls, Rs = catgen.shape(codec.snapshot(case["left"]), forms[0]), catgen.shape(codec.snapshot(case["right"]), forms[1])
+    if forms != ["lists", "lists"]:
+        ctx.label("container-forms")
     if case.get("selfjoin"):
         Rs = Ls
         ctx.label("selfjoin")
